@@ -952,6 +952,7 @@ func runC16(c *Ctx, tier string) {
 	runSeekLookupScansAll(c, "C16-L1")
 	runConstCompareRefusesNull(c, "C16-N2")
 	runCompareUsesBothOperands(c, "C16-C2")
+	c.borrow(func(t *Ctx) { writersNoRetain(t, "C04-W2") }, map[string]string{"C04-W2": "C16-W2"})
 	checkNullsMax(c, "C16-N1")
 }
 
